@@ -503,7 +503,8 @@ class IntegerFieldFormat(AbstractFieldFormat):
                 length = ranges.Range("1...%d" % self.length.upper_limit)
             # Python refuses to convert longer texts to an integer number, see sys.get_int_max_str_digits().
             maximum_length = getattr(sys, "get_int_max_str_digits", lambda: 0)() or 4300
-            if (length.upper_limit is not None) and (length.upper_limit > maximum_length):
+            length_limits = [limit for item in length.items or [] for limit in item if limit is not None]
+            if length_limits and (max(length_limits) > maximum_length):
                 raise errors.InterfaceError(
                     "length of integer field %s must be at most %d but is: %s"
                     % (_compat.text_repr(field_name), maximum_length, self.length)
